@@ -43,7 +43,7 @@ type C07Read struct {
 }
 
 type C07Op struct {
-	K    string   `json:"k"` // set | inc | patch | del | reload | read
+	K    string   `json:"k"` // set | inc | patch | pexp | del | reload | read
 	Key  int      `json:"key,omitempty"`
 	VI   int      `json:"vi,omitempty"`
 	Keep bool     `json:"keep,omitempty"` // set on an existing key: resend its current value
@@ -53,6 +53,7 @@ type C07Op struct {
 	ClrE bool     `json:"clre,omitempty"` // patch: ClearExpiredAt
 	Now  bool     `json:"now,omitempty"`  // patch: SetUpdatedAt (server stamps its clock; read back through Get)
 	R    *C07Read `json:"r,omitempty"`
+	N    int      `json:"n,omitempty"` // pexp: HowMany (0 = all expired)
 }
 
 type C07Scenario struct {
@@ -586,6 +587,16 @@ func genC07(cfg c07Cfg) func(t *rapid.T) C07Scenario {
 				s.Ops = append(s.Ops, C07Op{K: "reload"})
 				built = map[string]bool{}
 				tomb = make([]bool, nk)
+			case c < 72:
+				// PatchExpiredTreasures: every timestamp of the pool lies in the past, so every record that carries an
+				// ExpiredAt is a candidate. It takes the selected records out of the expiry index and re-inserts them
+				// (with a lease: at another position) — another maintenance path of the same index.
+				op := C07Op{K: "pexp", N: rapid.IntRange(0, 3).Draw(t, l+"n"), VI: rapid.IntRange(0, 9).Draw(t, l+"vi")}
+				if rapid.IntRange(0, 2).Draw(t, l+"lease") > 0 {
+					op.E = rapid.IntRange(1, 14).Draw(t, l+"pe")
+				}
+				s.Ops = append(s.Ops, op)
+				built["e"] = true
 			default:
 				s.Ops = append(s.Ops, genRead(l, pickFam(l)))
 			}
@@ -793,6 +804,41 @@ func runC07(s C07Scenario) (out pbt.Outcome) {
 			noteChange(old, &nw)
 			model[key] = &nw
 			classes["has-patch"] = true
+		case "pexp":
+			if len(model) == 0 {
+				continue
+			}
+			req := &hydrapb.PatchExpiredTreasuresRequest{IslandID: isl, SwampName: sn, HowMany: int32(op.N),
+				Ops: []*hydrapb.PatchOp{{Op: hydrapb.PatchOp_SET, Path: "p", Value: mpVal(nil, Val{K: "i8", I: int64(op.VI)})}}}
+			if op.E != 0 {
+				req.Meta = &hydrapb.PatchMeta{SetExpiredAt: nanosToTS(c07TS(op.E))}
+			}
+			ctx, cancel := ctxT()
+			resp, err := e.r.G.PatchExpiredTreasures(ctx, req)
+			cancel()
+			if err != nil || resp == nil {
+				return pbt.Failf("rpc-error", "op %d PatchExpired(HowMany=%d): resp=%v err=%v", i, op.N, resp, err)
+			}
+			// The response is taken at its word for WHICH records were patched and what their ExpiredAt is now
+			// (selection and patch semantics are C11's and C13's subject); the index reads are judged against that.
+			for _, pe := range resp.Patched {
+				old := model[pe.Key]
+				if old == nil {
+					return pbt.Failf("rpc-error", "op %d PatchExpired reported key %q which does not exist", i, pe.Key)
+				}
+				if pe.Status != hydrapb.PatchResult_PATCHED {
+					continue
+				}
+				nw := *old
+				nw.e = tsToNanos(pe.ExpiredAt)
+				noteChange(old, &nw)
+				model[pe.Key] = &nw
+				classes["patch-expired-patched"] = true
+			}
+			if len(resp.Patched) > 0 {
+				fs["e"].built = true
+				classes["has-patch-expired"] = true
+			}
 		case "del":
 			key := s.Keys[op.Key%len(s.Keys)]
 			if model[key] == nil || len(model) <= 1 {
